@@ -62,6 +62,14 @@ var c06Pool = []poolQuery{
 	{Text: `{ k1: req(r: 1) k2: req(r: 1) k3: req(r: 2) }`},
 	{Text: `{ n(x: {a: 1, b: "s", n: {a: 2, b: "s", n: {a: 1, b: "t"}}}) }`},
 	{Text: `{ n(x: {a: 1, b: "s", n: {a: 2, b: "t", n: {a: 2, b: "s"}}}) }`},
+	// different literals of one type whose contents mimic each other's structure
+	{Text: `{ strs(a: ["x y"], b: ["x", "y"]) }`},
+	{Text: `{ strs(a: ["x", "y"], b: ["x y"]) }`},
+	{Text: `{ strs(a: "[k]", b: ["k"]) }`},
+	{Text: `{ strs(a: ["a", "b c"], b: ["a b", "c"]) }`},
+	{Text: `{ strs(c: {b: "1 e:V0"}, d: {b: "1", e: V0}) }`},
+	{Text: `{ strs(c: {b: "s", a: 1}, d: {a: 1, b: "s"}) }`},
+	{Text: `{ strs(a: ["1"], b: ["1 "]) k: strs(a: [" 1"], b: ["1"]) }`},
 	// the same variables used at swapped positions
 	{Text: `query($x: Int!, $y: Int!) { k1: req(r: $x) k2: req(r: $y) }`, Vars: map[string]interface{}{"x": 1, "y": 2}},
 	{Text: `query($x: Int!, $y: Int!) { k1: req(r: $y) k2: req(r: $x) }`, Vars: map[string]interface{}{"x": 1, "y": 2}},
